@@ -538,23 +538,13 @@ def is_sector_select_2(xlog, k):
     return k > 0 and xlog[k - 1][1] == b"\xC2\xFF"
 
 
-# Suspected genuine defects that are reported to the coordinator but not (yet)
-# registered in known_findings.json get a class of their own; the environment
-# variable VERIF_C16_LOCAL_EXCL (comma separated names, default: none) lets the
-# search go on past them.
-LOCAL_EXCL = set(x for x in os.environ.get("VERIF_C16_LOCAL_EXCL",
-                                           "").split(",") if x)
-
-
 def _known_locally(exc, tagname, ctx):
+    """a class of its own for the (repaired, fde77b7) Ultralight EV1 defect:
+    protect() of NTAG21x needs self._cfgpage, which no MifareUltralightEV1
+    class used to set; nothing is excluded"""
     if isinstance(exc, AttributeError) and "_cfgpage" in str(exc) and \
             tagname.startswith("MF0UL"):
-        # Ultralight EV1: protect() of NTAG21x needs self._cfgpage, which no
-        # MifareUltralightEV1 class sets
         ctx.set_class("ev1/protect")
-        if "ev1-cfgpage" in LOCAL_EXCL:
-            ctx.label("local-exclusion:ev1-cfgpage")
-            return True
     return False
 
 
